@@ -3,6 +3,7 @@
 -/
 import YawVerif.Lemmas.Reader
 import YawVerif.Generated.Randoms
+import YawVerif.Generated.DataSize
 
 namespace Yaw.C16
 open Yaw Yaw.Rd
@@ -110,6 +111,40 @@ theorem joint_attributes (ws zs : List ℚ) (idx : List Nat) (h : ws.length = zs
     ∃ row, row < ws.length ∧ (idx.map fun i => ws.getD i 0)[k]? = some (ws.getD row 0) ∧
       (idx.map fun i => zs.getD i 0)[k]? = some (zs.getD row 0) := by
   refine ⟨idx[k], hidx _ (List.getElem_mem hk), ?_, ?_⟩ <;> simp [hk]
+
+/-- **size of the attribute samples** (`get_data_size`, regenerated): −1 without samples, the length of the one that is given,
+and with both given their common length — samples of different lengths are refused (at construction) -/
+theorem data_size_spec (nw nz : Option Int) :
+    (nw = none → nz = none → Gen.dataSize nw nz = .size (-1)) ∧
+    (∀ a, nw = some a → nz = none → Gen.dataSize nw nz = .size a) ∧
+    (∀ b, nw = none → nz = some b → Gen.dataSize nw nz = .size b) ∧
+    (∀ a b, nw = some a → nz = some b →
+      (a = b → Gen.dataSize nw nz = .size a) ∧ (a ≠ b → Gen.dataSize nw nz = .raises "ValueError")) := by
+  unfold Gen.dataSize
+  refine ⟨?_, ?_, ?_, ?_⟩
+  · rintro rfl rfl; simp
+  · rintro a rfl rfl; simp
+  · rintro b rfl rfl; simp
+  · rintro a b rfl rfl
+    constructor
+    · rintro rfl; simp
+    · intro h; simp [h]
+
+/-- hence the ONE index array drawn from `[0, data_size)` is in range for both samples: the hypotheses of `joint_attributes`
+are met whenever a generator with both samples exists -/
+theorem joint_draw_in_range (a b n : Int) (h : Gen.dataSize (some a) (some b) = .size n) (i : Int) (h0 : 0 ≤ i) (hi : i < n) :
+    i < a ∧ i < b := by
+  by_cases hab : a = b
+  · subst hab
+    have := ((data_size_spec (some a) (some a)).2.2.2 a a rfl rfl).1 rfl
+    rw [this] at h
+    injection h with h'
+    omega
+  · have := ((data_size_spec (some a) (some b)).2.2.2 a b rfl rfl).2 hab
+    rw [this] at h
+    cases h
+
+theorem data_size_at_init : Gen.dataSizeAtInit = true := by decide
 
 theorem glue_pinned : Gen.pinRandomProbe = "0163df6a58e1fbdd" ∧ Gen.pinRandomIter = "68b6757a4ca11947" ∧
     Gen.pinRandomsCall = "04c8f3f1c767f937" ∧ Gen.pinRandomsInit = "493145670e09d4b4" := by decide
